@@ -44,12 +44,15 @@ SCOPE = (
     "matrices with unit diagonal of order 1..5 realised by crafted series (kind=cube), each "
     "also in sequential mode; all of them with every non-empty set of missing states for order "
     "<=4 (order 5: all in thorough, seeded sample in quick); all 0/1 matrices of order <=3 and "
-    "all symmetric ones with free diagonal of order 4 by assignment to rp.R (kind=assign; "
+    "all symmetric ones with free diagonal of order 4 (thorough: 5) plus seeded asymmetric "
+    "4x4/5x5 by assignment to rp.R (kind=assign; "
     "asymmetric matrices: vertical/white clauses only, diagonal clause skipped because the "
     "library documents counting one triangle twice); all scalar series of length 1..5 over "
-    "{0,3,4} and over {0,f32(.7),f32(1.4)} (threshold .7) with embeddings, three metrics "
-    "(kind=series).  Random: cube matrices of order 6..60 at densities .05-.95, with and "
-    "without missing states, plus seeded scalar series of length 6..60.  Tolerances: "
+    "{0,3,4} and over {0,f32(.7),f32(1.4)} (threshold .7) with embeddings, three metrics, and "
+    "over {0,3,4,NaN} with missing_values=True (kind=series).  Random (quick 120 / thorough "
+    "1000 each): cube matrices of order 6..60 at densities .05-.95, a third with missing "
+    "states, and seeded float32 scalar series of length 6..60 (embedded, tied, with NaN).  "
+    "Tolerances: "
     "histograms and max lengths exact; ratios rtol 1e-7 (the library's documented 1e-8 "
     "denominator epsilon), entropies atol 1e-7; a measure with empty denominator is 0."
 )
@@ -584,7 +587,9 @@ def cases(tier, seed):
         w = {"kind": "series", "x": x.tolist(), "metric": S.METRICS[k % 3] if k % 2 else "supremum",
              "threshold": float(rng.choice([0.3, 0.5, 1.0, 0.7]))}
         if k % 2:
-            w.update(dim=2 + rng.randint(2), tau=1 + rng.randint(3))
+            dim, tau = 2 + rng.randint(2), 1 + rng.randint(3)
+            if n - (dim - 1) * tau >= 2:
+                w.update(dim=int(dim), tau=int(tau))
         if k % 5 == 0:
             x[rng.randint(n)] = np.nan
             w["x"] = x.tolist()
